@@ -183,6 +183,17 @@ v("ok-la-matvec-rewritten", L, "return v - self._vecs @ (self._left_vecs.conj().
 v("ok-la-rmatvec-rewritten", L, "return v - self._left_vecs @ (self._vecs.conj().T @ v)", "return v - self._left_vecs @ (np.conj(self._vecs).T @ v)", [])
 
 v("la-adjoint-inherits-cached-relatives", L, "            self._adjoint_operator._adjoint_operator = self\n", "            self._adjoint_operator._adjoint_operator = self\n            self._adjoint_operator._conjugate_operator = self._conjugate_operator\n", ["C17", "C06"])
+# --------------------------------------------------------------------------- kpm.py
+KP = "kpm"
+v("kpm-coefficient-sign", KP, "prefactor = -2 / np.sqrt(1 - energy**2)", "prefactor = 2 / np.sqrt(1 - energy**2)", ["C16"])
+v("kpm-zeroth-coefficient-not-halved", KP, "        coef[0] /= 2\n", "", ["C16"])
+v("kpm-recurrence-sign", KP, "2 * hamiltonian @ alpha - alpha_prev, alpha", "2 * hamiltonian @ alpha + alpha_prev, alpha", ["C16"])
+v("kpm-residual-of-other-equation", KP, "(hamiltonian @ sol - energy * sol) + vector", "(hamiltonian @ sol - energy * sol) - vector", ["C16"])
+v("kpm-rescale-centre", KP, "    b = (lmax + lmin) / 2.0", "    b = (lmax - lmin) / 2.0", ["C16"])
+v("kpm-arcsin-for-arccos", KP, "np.arccos(energy))", "np.arcsin(energy))", ["C16"])
+v("ok-kpm-prefactor-factored", KP, "prefactor = -2 / np.sqrt(1 - energy**2)", "prefactor = -2 / np.sqrt((1 - energy) * (1 + energy))", [])
+v("ok-kpm-rescale-centre-rewritten", KP, "    b = (lmax + lmin) / 2.0", "    b = 0.5 * (lmin + lmax)", [])
+v("ok-kpm-rescale-width-rewritten", KP, "    a = np.abs(lmax - lmin) / (2.0 - eps)", "    a = np.abs(lmin - lmax) / (2 - eps)", [])
 # --------------------------------------------------------------------------- number_ordered_form.py
 N = "number_ordered_form"
 v("nof-annihilators-ascending", N, "for i, power in reversed(list(enumerate(powers))):", "for i, power in enumerate(powers):", ["C08", "C07"])
